@@ -6,7 +6,7 @@
    ([C19_refuted], [C19_agree_iff]: it is right for exactly two of the 64 characters, '?' and '@'), and prove
    the property for the model with the finding repaired ([C19_repaired]). *)
 From Ais Require Import Model.Base Model.Messages Model.Unarmor Model.Sentence Spec.Grammar
-  Proofs.SentenceLemmas Proofs.Reassembly Proofs.Histories Proofs.Dispatch Proofs.Strings.
+  Proofs.SentenceLemmas Proofs.Reassembly Proofs.Histories Proofs.Dispatch Proofs.EndToEnd Proofs.Strings.
 From Coq Require Import String Lia.
 Local Open Scope N_scope.
 
@@ -53,6 +53,20 @@ Theorem C19_repaired :
     s_message_type (sentence_of_fields quirks_off f) = v.
 Proof. intros c line f hex b rest v _ Hp Ha. unfold sentence_of_fields; cbn [s_message_type]. rewrite Hp. cbn. rewrite Ha. reflexivity. Qed.
 Print Assumptions C19_repaired.
+
+(* ... and therefore agrees with the type field of the decoded message of an unfragmented sentence
+   (the sentence layer, unarmoring and the message layer composed: the first six bits of the
+   unarmored payload are the value of the first payload character) *)
+Theorem C19_repaired_agrees_with_message :
+  forall c line f hex st fr m,
+    Shaped c line f hex -> xor_fold (body_bytes f) = checksum_read hex ->
+    let s := sentence_of_fields quirks_off f in
+    has_more s = false -> is_fragment s = false ->
+    (2 <= List.length (af_payload f))%nat \/ s_fill s = 0 ->
+    snd (step c quirks_off st line true) = Ok fr -> s_message (frag_sentence fr) = Some m ->
+    s_message_type (frag_sentence fr) = type_field m.
+Proof. exact repaired_type_agrees_with_message. Qed.
+Print Assumptions C19_repaired_agrees_with_message.
 
 (* outside the recorded class (e.g. first character '@') the unchanged tree already satisfies the property *)
 Theorem C19_outside_known :
